@@ -176,7 +176,7 @@ def datagrams(run, deep=False):
     else:
         out += length_sweep(rng, list(range(0, 621)) + [751, 753, 1000, 2000], (0, 1))
         out += length_sweep(rng, list(range(0, 14)) + [154, 156, 159, 450, 452, 455, 512, 600], range(2, 16))
-    for _ in range(run.scale(1500, 30000) * mult):
+    for _ in range(run.scale(3000, 30000) * mult):
         out.append(T.rand_bytes(rng))
     seen, uniq = set(), []
     for b in out:
@@ -220,7 +220,7 @@ def if_histories(run, deep=False):
         kind, m, legacy, b = rng.choice(cand)
         return (("T" if side == "tx" else "R"), b, (kind, m))
 
-    for i in range(run.scale(700, 8000) * (3 if deep else 1)):
+    for i in range(run.scale(1200, 8000) * (3 if deep else 1)):
         ops = []
         cur = 0
         side = rng.choice(["tx", "rx"])
@@ -303,7 +303,7 @@ def captures(run, deep=False):
     rng = run.rng
     out = [(b"", []), (b"\x01", []), (b"\x01\x00", []), (b"\x01\x00\x00", None), (b"\x02\xff\xff", []), (b"\x00\x00\x00", []),
            (b"\x01\x00\x00" * 6, None), (b"\xff" * 40, [])]
-    for _ in range(run.scale(60, 600) * (3 if deep else 1)):
+    for _ in range(run.scale(100, 600) * (3 if deep else 1)):
         ms = capture_msgs(rng, rng.choice([1, 2, 3, 4]))
         recs = [record(tag_of(k), p) for k, m, p in ms]
         data = b"".join(recs)
@@ -485,11 +485,16 @@ def correspond_c14(run, corr):
 
 
 # ---- the property, judged on the real code's answers -----------------------------------------------------------------
+def exc_name(x):
+    """the harness prints type(e).__name__; struct.error's is plain `error`"""
+    return "struct.error" if x.strip() == "error" else x.strip()
+
+
 def judge_parse(req, a):
     """(a): returns (ok ...) or raises ValueError"""
     if a.startswith("ok ") or a == "ValueError":
         return None
-    return "%s raised %s (the parser may signal ValueError only)" % ("TxMsg.parse_msg" if req.startswith("trxd.tx.") else "RxMsg.parse_msg", a[:60])
+    return "%s raised %s (the parser may signal ValueError only)" % ("TxMsg.parse_msg" if req.startswith("trxd.tx.") else "RxMsg.parse_msg", exc_name(a[:60]))
 
 
 def split_hist(a):
@@ -520,7 +525,7 @@ def judge_if(ops, a):
         name = "recv_tx_msg" if op[0] == "T" else "recv_rx_msg"
         tag = "t" if op[0] == "T" else "r"
         if x.startswith("E "):
-            return (i, "%s raised %s" % (name, x[2:]), "a message or None")
+            return (i, "%s raised %s" % (name, exc_name(x[2:])), "a message or None")
         body = x[2:]
         b = op[1][:512]
         nib = (b[0] >> 4) if b else None
@@ -556,7 +561,7 @@ def judge_seq(items, a):
         name = "TxMsg.parse_msg" if it[0] == "T" else "RxMsg.parse_msg"
         if x.startswith("E "):
             if x != "E ValueError":
-                return (i, "%s raised %s (the parser may signal ValueError only)" % (name, x[2:]), "a message or ValueError")
+                return (i, "%s raised %s (the parser may signal ValueError only)" % (name, exc_name(x[2:])), "a message or ValueError")
             if it[2] is not None and ((it[2][0] == "tx") == (it[0] == "T")):
                 return (i, "%s rejected a valid datagram after %d other parses" % (name, i), expected_line(*it[2]))
             continue
@@ -571,7 +576,7 @@ def judge_dump_read(exp, a):
     """(c) + what is stored: None or (what, demanded)"""
     kind, good = exp[0], exp[1]
     if not a.startswith("ok "):
-        return ("%s raised %s" % ("parse_msg" if kind == "msg" else "parse_all", a[:60]), "no exception")
+        return ("%s raised %s" % ("parse_msg" if kind == "msg" else "parse_all", exc_name(a[:60])), "no exception")
     body = a[3:]
     if kind == "msg":
         idx = exp[2]
@@ -630,7 +635,7 @@ def judge_dump_hist(data, good, pre, post, a):
             stored = stored + [(op[1], op[2])]
             continue
         if x.startswith("E "):
-            return (i, "%s raised %s" % ("parse_msg" if op[0] == "M" else "parse_all", x[2:]), "no exception")
+            return (i, "%s raised %s" % ("parse_msg" if op[0] == "M" else "parse_all", exc_name(x[2:])), "no exception")
         exp = ("msg", stored, op[1]) if op[0] == "M" else ("all", stored, op[1], op[2])
         j = judge_dump_read(exp, "ok " + x[2:])
         if j:
